@@ -14,7 +14,7 @@ META = {
                  "byte count, big-endian shifts, space guard and return value; R06.2 every public write has a flush "
                  "threshold >= the widest head its argument type can need; R06.3 majors / fixed codes; R06.4 every "
                  "store through m_p is bounded by m_avail and only ctor/update_buffer/flush_buffer write m_p/m_avail; "
-                 "R06.5 write_string copies min(m_avail,left) per round and flushes between rounds. R06.1/R06.4 for write_int are decided by cell-wise partial evaluation (cells.py); R06.5 by affine analysis of every path through a loop iteration and the tail, with a ghost-counter/invariant fallback for other shapes (affine.py). R06.9: no member of the encoder receives an argument through a conversion that drops bits (controls). R06.6: `return m_p - start` is accepted only when no flush can run between the sample and the return. R06.4: a bulk memcpy to the cursor followed by update_buffer of the same amount under `n <= m_avail`. R06.3: signedness of a comparison is that of its operand after conversions (a uint64 value converted to int64 can be negative). R06.2 also decides value-dependent thresholds `m_avail < H(x)` (H tabulated over every power of two and every constant it mentions, for the values of the argument's source type; bit counts and constant tables evaluated), thresholds held in a local, and runs: write_int inside a loop whose trip count R was taken from the free space (R = m_avail / C, or BUFFER_SIZE / C straight after a flush) with C at least the head an item can need and nothing advancing the cursor between the computation of R and the run; a threshold tested once in front of a loop does not cover the loop's later iterations. R06.4 also: flush_buffer:whenever-staged (the write and the reset happen in every state with m_p > m_buffer), flush_buffer:reports-what-it-flushed (a count it returns is the count handed to the writer), stores after `if (m_avail < K) flush_buffer();` have K bytes free while the cursor has not been advanced, and a function that hands [m_buffer, m_p) to the writer itself and resets the cursor straight afterwards is a flush site of its own. R06.5 knows a gathering write (staged bytes and n bytes of the source in one call), candidate loop invariants (Houdini) and one step of additive reasoning about signs. R06.6 pairs every update_buffer(n) with `acc += n` for accumulating primitives and accepts head + write_string()'s own report.",
+                 "R06.5 write_string copies min(m_avail,left) per round and flushes between rounds. R06.1/R06.4 for write_int are decided by cell-wise partial evaluation (cells.py); R06.5 by affine analysis of every path through a loop iteration and the tail, with a ghost-counter/invariant fallback for other shapes (affine.py). R06.9: no member of the encoder receives an argument through a conversion that drops bits (controls). R06.6: `return m_p - start` is accepted only when no flush can run between the sample and the return. R06.4: a bulk memcpy to the cursor followed by update_buffer of the same amount under `n <= m_avail`. R06.3: signedness of a comparison is that of its operand after conversions (a uint64 value converted to int64 can be negative). R06.2 also decides value-dependent thresholds `m_avail < H(x)` (H tabulated over every power of two and every constant it mentions, for the values of the argument's source type; bit counts and constant tables evaluated), thresholds held in a local, and runs: write_int inside a loop whose trip count R was taken from the free space (R = m_avail / C, or BUFFER_SIZE / C straight after a flush) with C at least the head an item can need and nothing advancing the cursor between the computation of R and the run; a threshold tested once in front of a loop does not cover the loop's later iterations. R06.4 also: flush_buffer:whenever-staged (the write and the reset happen in every state with m_p > m_buffer), flush_buffer:reports-what-it-flushed (a count it returns is the count handed to the writer), stores after `if (m_avail < K) flush_buffer();` have K bytes free while the cursor has not been advanced, and a function that hands [m_buffer, m_p) to the writer itself and resets the cursor straight afterwards is a flush site of its own. R06.5 knows a gathering write (staged bytes and n bytes of the source in one call), candidate loop invariants (Houdini) and one step of additive reasoning about signs. R06.6 pairs every update_buffer(n) with `acc += n` for accumulating primitives and accepts head + write_string()'s own report. R06.8 is path-sensitive for loop-free functions: every returning path contains an emission or a recognised refusal (null pointer, no space after flushing); `if (c) { emit } else { }` fails.",
     "explanation": "Abstract interpretation (intervals on the value, constant thresholds) plus structural rules over "
                    "the encoder's ~20 functions. The argument is valid for every value and every buffer fill level "
                    "because it compares constants in guards, not executions.",
